@@ -140,3 +140,24 @@ macro_rules! stroke_rect_inside {
 }
 stroke_rect_inside!(c36_t_stroke_rect_inside_3x3, 3, 1, 11);
 stroke_rect_inside!(c36_t_stroke_rect_inside_4x4, 4, 2, 18);
+
+/// Cheap quick-tier variant of the stroke_rect check: 3x4 image, width 1,
+/// rectangle with symbolic top-left corner and fixed bottom-right corner (3,4)
+/// (non-square on purpose: top != left and bottom != right are reachable).
+#[kani::proof]
+#[kani::unwind(14)]
+fn c36_q_stroke_rect_3x4_corner() {
+    let mut img = NdTensor::<u8, 2>::zeros([3, 4]);
+    let (t, l): (i32, i32) = kani::any();
+    kani::assume(t >= 0 && t <= 1 && l >= 0 && l <= 2);
+    let (b, r) = (3, 4);
+    stroke_rect(img.view_mut(), Rect::from_tlbr(t, l, b, r), 9u8, 1);
+    let y: usize = kani::any();
+    let x: usize = kani::any();
+    kani::assume(y < 3 && x < 4);
+    let (yi, xi) = (y as i32, x as i32);
+    let inside = yi >= t && yi < b && xi >= l && xi < r;
+    let on_border = inside && (yi < t + 1 || yi >= b - 1 || xi < l + 1 || xi >= r - 1);
+    kani::cover!(inside && !on_border, "interior pixel");
+    assert!((img[[y, x]] == 9) == on_border, "stroke_rect set the wrong pixels");
+}
